@@ -255,6 +255,7 @@ __CPROVER_ensures(T_RET_OLD ==> T_RET)
 #define LOCK_ASSIGNS gh_lock_held, gh_lock_depth, gh_n_lock, gh_n_unlock
 cv_i64 gh_pos0, gh_len0, gh_cnt;      /* push_lk: logical variables for the entry values of _pos, |_q| and the argument count   */
 cv_i8 gh_ret0;                        /* push_lk: retention held for the tracked slot before the items were pushed              */
+cv_i8 gh_closed0;                     /* pub_dtor_close: logical variable, the queue was already closed at entry                */
 cv_i8 gh_parked;                      /* protocol units: this thread's coroutine is suspended on its (parked) awaiter  */
 cv_i32 gh_n_unlock_chk;               /* number of releases at which the obligations were checked                               */
 #define C16_ASSERT_INV(why) \
@@ -269,6 +270,10 @@ void c16_on_unlock(void *m) {
   gh_n_unlock_chk++;
   C16_ASSERT_INV("queue invariant when the mutex is released");
 #ifdef C16_UNLOCK_PUSH
+#ifndef C16_UNLOCK_PUSH_WHEN
+#define C16_UNLOCK_PUSH_WHEN 1          /* units that run push_lk as part of a longer route (pub_dtor_close) name the release that is push_lk's */
+#endif
+  if (C16_UNLOCK_PUSH_WHEN) {
   /* what push_lk(lk, count) has to achieve before it lets go of the lock (property statement, clause by clause) */
   __CPROVER_assert(POS == gh_pos0 + gh_cnt, "push_lk: stream position advanced by exactly the number of pushed items");
   __CPROVER_assert((T_IN && T._used) ==> dq_len >= MIN3(POS - T._pos, MAXL, gh_len0), "push_lk: retains every position a registered subscriber still needs, up to max");
@@ -276,6 +281,7 @@ void c16_on_unlock(void *m) {
   __CPROVER_assert((T_IN && T._used) ==> T._awt == 0, "push_lk: no awaiter stays parked across a publish/close");
   __CPROVER_assert(gh_aw_state == 1 ==> wb_cnt == 1, "push_lk: the parked awaiter was collected for wake-up exactly once");
   __CPROVER_assert(gh_aw_state == 0 ==> wb_cnt == 0, "push_lk: an awaiter that is not parked is not collected");
+  }
 #endif
 }
 /* RELY: what the other threads may have done while this thread did not hold the mutex.  Each of their critical sections keeps the
